@@ -11,7 +11,7 @@ use num::Zero;
 impl RayCast for Aabb {
     fn cast_local_ray(&self, ray: &Ray, max_time_of_impact: Real, solid: bool) -> Option<Real> {
         let mut tmin: Real = 0.0;
-        let mut tmax: Real = max_time_of_impact;
+        let mut tmax: Real = Real::MAX;
 
         for i in 0usize..DIM {
             if ray.dir[i].is_zero() {
@@ -41,10 +41,16 @@ impl RayCast for Aabb {
             }
         }
 
-        if tmin.is_zero() && !solid {
-            Some(tmax)
+        let time_of_impact = if tmin.is_zero() && !solid {
+            tmax
         } else {
-            Some(tmin)
+            tmin
+        };
+
+        if time_of_impact <= max_time_of_impact {
+            Some(time_of_impact)
+        } else {
+            None
         }
     }
 
